@@ -1,5 +1,6 @@
 import Driver.Proto
 import Selene.Filter.Spec
+import Selene.Filter.ForestOf
 import Selene.Generated.Lints
 import Selene.Props.C10
 namespace Driver.C08
@@ -103,12 +104,15 @@ def handleFilter : Handler := fun input impl =>
               | [] => none
               | x :: _ => some s!"ignored: a well-formed filter naming a lint that does not exist is never reported because the token after it starts no syntax node ({x})"
           let changed := unf.filter fun d => Spec.verdict activeFilters firstCode d != some d
-          let tags := tags0 ++ (if !changed.isEmpty then ["changes-something"] else []) ++
+          -- hypothesis of `C08_machine`: the accepted inline filters are the pre-order of a well-formed forest
+          let forest := forestOf (filters.filter fun f => !f.cfg.global)
+          let tags := tags0 ++ (if forest.isSome then ["forest-hypothesis-holds"] else ["forest-hypothesis-fails"]) ++ (if !changed.isEmpty then ["changes-something"] else []) ++
             (if out.failures.any (fun f => match f with | .conflict _ _ => true | _ => false) then ["conflict"] else []) ++
             (if out.failures.any (fun f => match f with | .globalLate _ => true | _ => false) then ["global-late"] else []) ++
             (if unf.any (fun d => (activeFilters.filter (fun f => Spec.covers f d)).length ≥ 2) then ["nested-same-lint"] else [])
-          { agree := claimAgree && modelOut == implOut && modelFails == implFails, spec,
+          { agree := claimAgree && modelOut == implOut && modelFails == implFails && forest.isSome, spec,
             model := (if claimAgree then "" else s!"CLAIM model {modelEntries} impl {implEntries} ") ++
+                     (if forest.isSome then "" else s!"FOREST the accepted inline filter ranges are not the pre-order of a well-formed forest: C08_machine does not apply to this input {(filters.filter fun f => !f.cfg.global).map (·.range)} ") ++
                      (if modelOut == implOut then "" else s!"OUT model {modelOut} impl {implOut} ") ++
                      (if modelFails == implFails then "" else s!"FAILS model {modelFails} impl {implFails}"),
             tags }
